@@ -110,7 +110,12 @@ def history(chk, ctx, rng, tier):
         idx = [int(rng.integers(0, 400)) for _ in range(L)]
         # repeat some calls inside the sequence (cache hits) and include every op kind at least once over the run
         idx += [idx[int(rng.integers(len(idx)))] for _ in range(3)]
-        if s == 0: idx += list(range(nops))
+        if s == 0:
+            idx += list(range(nops))
+            # many instances of the same-length/different-grid integrations in one process (the last op of the table), in random places
+            alt = nops - 1
+            for j in range(1, 17):
+                idx.insert(int(rng.integers(len(idx) + 1)), alt + nops * int(rng.integers(1, 400)))
         seed = ctx['seed'] * 100 + s
         together = run_ops(path, seed, idx)
         chk.l3(('cache-soundness', s))
